@@ -129,6 +129,7 @@ type Kernel struct {
 	listeners    map[string]*Listener
 	stubs        map[string]StubFactory
 	udpSt        *udpState
+	lastUnlock map[string]int
 	unlockSeq    uint64
 	fsTrace      []string
 	udpBusyPorts map[int]bool
@@ -343,6 +344,10 @@ func (k *Kernel) unlockHook(m interface{}) {
 	}
 	k.mu.Lock()
 	if r := k.owners[m]; r != nil {
+		if k.lastUnlock == nil {
+			k.lastUnlock = map[string]int{}
+		}
+		k.lastUnlock[r.gname] = k.step
 		delete(k.owners, m)
 		hs := k.heldBy[r.gid]
 		for i := len(hs) - 1; i >= 0; i-- {
@@ -454,6 +459,16 @@ func (k *Kernel) parkUDPWrite(s *UDPSock) {
 }
 
 // goroutineBusy reports whether a goroutine with this name waits for or holds a cooperative mutex.
+// LastUnlockStep is the step at which a goroutine of that name last released a woven mutex (-1: never).
+func (k *Kernel) LastUnlockStep(name string) int {
+	k.mu.Lock()
+	defer k.mu.Unlock()
+	if s, ok := k.lastUnlock[name]; ok {
+		return s
+	}
+	return -1
+}
+
 func (k *Kernel) goroutineBusy(name string) bool {
 	k.mu.Lock()
 	defer k.mu.Unlock()
